@@ -211,6 +211,12 @@ def run(repo: Repo, chk: Check):
                 n_acc += 1
                 chk.saw(mn, f.qual)
                 kind = _key_kind(key_expr, frd, ids[0], f, fcfg)
+                if kind is not None and "main" in kind.split("/"):
+                    chk.bad("R13.c", f"{mn}:{f.qual}:{table}[{norm(key_expr)}]",
+                            f"the table {table} is read with the constant key '' (the main file's scope) whatever module the node at hand belongs to: a name of a library module "
+                            f"that equals a name of the main file resolves to the main file's object, so equal names in different modules share meaning",
+                            {"key": kind}, f"{m.path}:{e.lineno} in {f.qual}")
+                    continue
                 chk.judge("R13.c", f"{mn}:{f.qual}:{table}[{norm(key_expr)}]", kind is not None,
                           f"the table {table} is accessed with the key {norm(key_expr)}, which is neither get_scope_name(<node>) nor a key taken from the table: "
                           f"equal names in different modules would share storage", {"key": kind}, f"{m.path}:{e.lineno} in {f.qual}")
